@@ -3,7 +3,7 @@
    the extracted datatypes. *)
 From Coq Require Import ZArith List Floats.
 From Coq Require Import ExtrOcamlBasic ExtrOCamlFloats ExtrOCamlInt63.
-From SC Require Import Num Vec3 Kernel FloatIO Grid Integrator CellCycle Mesh Geometry Forces MeshOps Population Vtk Params Params_gen Output.
+From SC Require Import Num Vec3 Kernel FloatIO Grid Integrator CellCycle Mesh Geometry Forces MeshOps Population Vtk Params Params_gen Output Contact.
 
 Definition kernel_f := kernel NumF.
 
@@ -81,6 +81,11 @@ Definition par_translation_ok := translation_ok.
 Definition out_run_f := @run float NumF f_floorZ Z.
 Definition out_init_f := @init float NumF Z.
 
+(* C06/C07: the contact phase of the default contact model, with the grid and with all pairs *)
+Definition ct_phase_f := @contact_phase float NumF f_floorZ f_ceilZ f_eps.
+Definition ct_all_pairs_f := @all_pairs_phase float NumF f_ceilZ f_eps.
+Definition ct_prepare_f := @prepare float NumF f_ceilZ f_eps.
+
 Extraction Language OCaml.
 Extraction "model.ml" NumF kernel_f
   grid_dims_f grid_idx3_f grid_in_range_f grid_flat_f grid_empty_f grid_place_f grid_nbh_f grid_content_f grid_content_at_f
@@ -94,4 +99,5 @@ Extraction "model.ml" NumF kernel_f
   pop_init pop_step pop_inv_b
   vtk_write vtk_read
   par_numerical par_cell_types par_translation_ok
-  out_run_f out_init_f.
+  out_run_f out_init_f
+  ct_phase_f ct_all_pairs_f ct_prepare_f.
